@@ -33,18 +33,24 @@ structure FieldSum where
   doc : Option Text
   deriving DecidableEq, Repr
 
+/-- `#[serde(default, skip_serializing_if = ..)]` -/
+def skipAttrs (f : HirField) : List SerdeAttr :=
+  if f.optional then [.defaultSkip cs!"Option::is_none"]
+  else if f.ty.isIterable then [.defaultSkip cs!"Vec::is_empty"]
+  else if f.ty == .any then [.defaultSkip cs!"serde_json::Value::is_null"] else []
+
+/-- `#[serde(with = ..)]` -/
+def withAttrs (f : HirField) : List SerdeAttr :=
+  match f.ty with
+  | .integer .string => [.with_ cs!"crate::serde::option_i64_str"]
+  | .integer .nullAsZero => [.with_ cs!"crate::serde::option_i64_null_as_zero"]
+  | .date .integer => [.with_ cs!"crate::serde::option_chrono_naive_date_as_int"]
+  | .currency => [.with_ (if f.optional then cs!"rust_decimal::serde::str_option" else cs!"rust_decimal::serde::str")]
+  | _ => []
+
 /-- `field_attributes` -/
 def fieldAttributes (f : HirField) (name ident : Text) : List SerdeAttr :=
-  (if ident != name then (if f.flatten then [.flatten] else [.rename name]) else []) ++
-  (if f.optional then [.defaultSkip cs!"Option::is_none"]
-   else if f.ty.isIterable then [.defaultSkip cs!"Vec::is_empty"]
-   else if f.ty == .any then [.defaultSkip cs!"serde_json::Value::is_null"] else []) ++
-  (match f.ty with
-   | .integer .string => [.with_ cs!"crate::serde::option_i64_str"]
-   | .integer .nullAsZero => [.with_ cs!"crate::serde::option_i64_null_as_zero"]
-   | .date .integer => [.with_ cs!"crate::serde::option_chrono_naive_date_as_int"]
-   | .currency => [.with_ (if f.optional then cs!"rust_decimal::serde::str_option" else cs!"rust_decimal::serde::str")]
-   | _ => [])
+  (if ident != name then (if f.flatten then [.flatten] else [.rename name]) else []) ++ skipAttrs f ++ withAttrs f
 
 /-- Option-wrap is forced for the adapter-carried types -/
 def forcedOptional (t : Ty) : Bool :=
